@@ -97,6 +97,16 @@ def _compact(ns, off):
     return "%04d%02d%02dT%02d%02d%02d" % (y, mo, d, h, mi, s)
 
 
+def _iso_t_ns_off(ns, off):
+    y, mo, d, h, mi, s, n, _ = civil(ns, off)
+    return "%04d-%02d-%02dT%02d:%02d:%02d.%s%s" % (y, mo, d, h, mi, s, frac_str(n, 9), off_str(off))
+
+
+def _iso_space_ns(ns, off):
+    y, mo, d, h, mi, s, n, _ = civil(ns, off)
+    return "%04d-%02d-%02d %02d:%02d:%02d.%s" % (y, mo, d, h, mi, s, frac_str(n, 9))
+
+
 NOTATIONS = {
     # name: (fn, carries_zone, fractional_digits)
     "iso_space": (_iso_space, False, 0),
@@ -104,6 +114,8 @@ NOTATIONS = {
     "iso_space_ms_off": (_iso_space_ms_off, True, 3),
     "iso_t_z": (_iso_t_z, True, 0),
     "compact": (_compact, False, 0),
+    "iso_t_ns_off": (_iso_t_ns_off, True, 9),
+    "iso_space_ns": (_iso_space_ns, False, 9),
 }
 
 
